@@ -559,6 +559,23 @@ def run_check(profile, tier, seed, runs=None, workers=None, digests_only=False, 
     # they are executed on every run and must stay clean
     import glob
 
+    # open findings: minimised histories of recorded (unrepaired) defects. They are
+    # replayed to confirm that the finding is still there; the generators avoid their
+    # trigger so that the rest of the space is explored to full depth.
+    for path in sorted(glob.glob(os.path.join(VERIF, "findings", profile.prop, "*.json"))):
+        try:
+            doc = json.load(open(path))
+            r = execute_ops(profile, doc["config"], doc["ops"])
+        except Exception:
+            harness.append((-1, f"finding case {path}: " + traceback.format_exc()))
+            continue
+        agg["finding_cases"] += 1
+        if r.violation is not None:
+            key = _vkey(profile, r)
+            viols.append({"run": 800000, "sig": key, "oracle": r.violation.oracle, "message": r.violation.message[:2000],
+                          "config": doc["config"], "step": r.step, "nops": len(doc["ops"]), "ops": doc["ops"], "digest": r.digest})
+        else:
+            print(f"NOTE: recorded finding {os.path.basename(path)} no longer reproduces (repaired?)")
     nreg = 0
     for path in sorted(glob.glob(os.path.join(VERIF, "regress", profile.prop, "*.json"))):
         try:
